@@ -226,6 +226,9 @@ func (t attrSelector) Match(n *html.Node) bool {
 		return attributeNotEqualMatch(t.key, t.val, n, t.ignoreCase)
 	case "~=":
 		// matches elements where the attribute named key is a whitespace-separated list that includes val.
+		if t.val == "" {
+			return false
+		}
 		return matchAttribute(n, t.key, func(s string) bool { return matchInclude(t.val, s, t.ignoreCase) })
 	case "|=":
 		return attributeDashMatch(t.key, t.val, n, t.ignoreCase)
@@ -348,7 +351,7 @@ func attributeDashMatch(key, val string, n *html.Node, ignoreCase bool) bool {
 func attributePrefixMatch(key, val string, n *html.Node, ignoreCase bool) bool {
 	return matchAttribute(n, key,
 		func(s string) bool {
-			if strings.TrimSpace(s) == "" {
+			if val == "" || strings.TrimSpace(s) == "" {
 				return false
 			}
 			if ignoreCase {
@@ -363,7 +366,7 @@ func attributePrefixMatch(key, val string, n *html.Node, ignoreCase bool) bool {
 func attributeSuffixMatch(key, val string, n *html.Node, ignoreCase bool) bool {
 	return matchAttribute(n, key,
 		func(s string) bool {
-			if strings.TrimSpace(s) == "" {
+			if val == "" || strings.TrimSpace(s) == "" {
 				return false
 			}
 			if ignoreCase {
@@ -378,7 +381,7 @@ func attributeSuffixMatch(key, val string, n *html.Node, ignoreCase bool) bool {
 func attributeSubstringMatch(key, val string, n *html.Node, ignoreCase bool) bool {
 	return matchAttribute(n, key,
 		func(s string) bool {
-			if strings.TrimSpace(s) == "" {
+			if val == "" || strings.TrimSpace(s) == "" {
 				return false
 			}
 			if ignoreCase {
